@@ -572,6 +572,31 @@ static const char* et_name(int et) { static const char* const n[] = {"Polygon", 
 static const char* jt_name(int jt) { static const char* const n[] = {"Square", "Bevel", "Round", "Miter"}; return n[jt]; }
 static int lencls(size_t n) { return n > 3 ? 3 : (int)n; }
 
+// Is every discrepancy between the combined result and the union of the alone results attributable to open-path
+// groups only? (a) every alone result of a Polygon-group path is present in the combined result, and (b) every
+// combined path that is not such a result lies inside the inflated bounding box of an open-path group's input path.
+static bool discrepancy_confined_to_open_groups(const Obj& m, double delta, const Paths64& ca /*canonical combined*/,
+                                                const std::vector<Paths64>& per_path, const std::vector<std::pair<int, int>>& ids) {
+  Paths64 poly;
+  for (size_t q = 0; q < per_path.size(); ++q) if ((EndType)m.groups[(size_t)ids[q].first].et == EndType::Polygon) for (const Path64& p : per_path[q]) poly.push_back(p);
+  Paths64 cp = canon_multiset(poly);
+  std::vector<bool> used(ca.size(), false);
+  for (const Path64& p : cp) { bool f = false; for (size_t k = 0; k < ca.size(); ++k) if (!used[k] && path_eq(p, ca[k])) { used[k] = true; f = true; break; } if (!f) return false; }
+  double maxd = m.dcb_kind > 0 ? std::fabs(m.dcb_base) * 1.01 + 1 : std::fabs(delta);
+  double reach = maxd * std::max(m.miter, 2.0) + 4;
+  for (size_t k = 0; k < ca.size(); ++k) {
+    if (used[k] || ca[k].empty()) continue;
+    Rect64 b = GetBounds(ca[k]); bool inside = false;
+    for (const OffGroup& g : m.groups) {
+      if ((EndType)g.et == EndType::Polygon) continue;
+      for (const Path64& p : g.paths) { if (p.empty()) continue; Rect64 ib = GetBounds(p);
+        if ((double)b.left >= (double)ib.left - reach && (double)b.right <= (double)ib.right + reach && (double)b.top >= (double)ib.top - reach && (double)b.bottom <= (double)ib.bottom + reach) inside = true; }
+    }
+    if (!inside) return false;
+  }
+  return true;
+}
+
 static void alone_check(const Obj& m, double delta, const Paths64& combined, OpResult& r) {
   std::string why;
   if (!alone_precondition(m, delta, why)) return;
@@ -632,7 +657,7 @@ static void alone_check(const Obj& m, double delta, const Paths64& combined, OpR
     snprintf(b, sizeof b, "et=%s jt=%s len=%d first_in_group=%d twopt_earlier_in_group=%d empty_polygon_group_earlier=%d reversed_polygon_group_in_call=%d group_is_polygon=%d only_open_group_results_missing=%d dcb=%d delta_sign=%d any_path_before=%d",
              et_name(g.et), jt_name(g.jt), lencls(g.paths[ids[k].second].size()), ids[k].second == 0, twopt_before_in_group, empty_poly_group_before,
              first_poly_reversed && has_nonpoly, (EndType)g.et == EndType::Polygon, only_open_missing, m.dcb_kind > 0 ? 1 : 0, delta < 0 ? -1 : 1, any_before);
-    sig = b;
+    sig = std::string(b) + " discrepancy_confined_to_open_groups=" + (discrepancy_confined_to_open_groups(m, delta, ca, per_path, ids) ? "1" : "0");
     r.detail = "input path g" + std::to_string(ids[k].first) + "/p" + std::to_string(ids[k].second) + " = " + dump_paths(Paths64{g.paths[ids[k].second]}) +
                "\nalone result:    " + dump_paths(per_path[k]) + "\ncombined result: " + dump_paths(combined) + "\nexpected union of alone results: " + dump_paths(expect);
     break;
@@ -640,7 +665,9 @@ static void alone_check(const Obj& m, double delta, const Paths64& combined, OpR
   if (sig == "none") {
     bool empty_poly = false, reversed = false;
     for (const OffGroup& gg : m.groups) if ((EndType)gg.et == EndType::Polygon) { bool all_empty = true; for (const Path64& p : gg.paths) { if (!p.empty()) all_empty = false; if (Area(p) < 0) reversed = true; } if (all_empty) empty_poly = true; }
-    sig = std::string("extra-paths-in-combined-result empty_polygon_group_in_call=") + (empty_poly ? "1" : "0") + " reversed_polygon_group_in_call=" + (reversed ? "1" : "0") + " dcb=" + (m.dcb_kind > 0 ? "1" : "0");
+    bool has_nonpoly2 = false; for (const OffGroup& gg : m.groups) if ((EndType)gg.et != EndType::Polygon) has_nonpoly2 = true;
+    sig = std::string("extra-paths-in-combined-result empty_polygon_group_in_call=") + (empty_poly ? "1" : "0") + " reversed_polygon_group_in_call=" + (reversed && has_nonpoly2 ? "1" : "0") + " dcb=" + (m.dcb_kind > 0 ? "1" : "0") +
+          " discrepancy_confined_to_open_groups=" + (discrepancy_confined_to_open_groups(m, delta, ca, per_path, ids) ? "1" : "0");
     r.detail = "combined result has extra paths\ncombined: " + dump_paths(combined) + "\nexpected: " + dump_paths(expect);
   }
   r.sig = sig;
